@@ -425,6 +425,14 @@ def run(index, rep, tier):
         a, b = (ast.dump(l) for l in loops)
         rep.check(a == b, "R14.4", pdq.qualname, "the two walk-up loops differ", fn_where(pdq, loops[1]), "both taxa are walked up to the MRCA by the same loop", "treemeasure.patristic_distance walks the two taxa up to their common ancestor with different loops (`%s` / `%s`): one side's edge lengths are accumulated differently" % (norm(loops[0].test), norm(loops[1].test)))
 
+    # ---- R14.8 what goes into the tables and what comes out of the CSV
+    with rep.section("R14.8"):
+        rep.rule("R14.8", "path lengths are sums of the edge lengths the tree had: the edge-length merges done when encode_bipartitions collapses an unrooted basal bifurcation or suppresses a unifurcation conserve length in all None-ness cases (C07 R07.4, R07.6; C08 R08.6), and write_csv formats distances losslessly (str / %s / {} only) so that from_csv reads back the same numbers")
+        nb = borrow(index, rep, "C07", {"R07.4", "R07.6"}, "R14.8") + borrow(index, rep, "C08", {"R08.6"}, "R14.8")
+        from . import c02
+        nb += c02.lossless_format_rule(index, rep, "R14.8", ["dendropy.calculate.phylogeneticdistance"])
+        rep.floor("R14.8", "borrowed obligations and format strings", 6, nb)
+
 
 def option_default_rule(index, rep, rid, cq, options):
     ci = index.klass(cq)
